@@ -11,6 +11,8 @@ package sim
 // (no fault, deliver normally, stop generating).
 
 import (
+	"crypto/sha256"
+	"encoding/binary"
 	"fmt"
 	"hash/fnv"
 	"math/rand/v2"
@@ -162,4 +164,56 @@ func (c *Chooser) Tape() []int {
 		t[i] = d.V
 	}
 	return t
+}
+
+// Keyed derives decisions that may be asked for by goroutines of the system
+// under test running side by side (two background jobs whose timers expire at
+// the same simulated instant both reach the WattTime responder): the order in
+// which such goroutines would draw from the tape is not a scheduler decision,
+// so they must not draw from it. One key per run comes from the tape (drawn by
+// the driver when the policy is installed); every decision is a pure function
+// of that key and of what the caller passes (label, request path, simulated
+// time), so identical requests at one instant get one answer whichever
+// goroutine asks first, and a replay of the tape reproduces all of them.
+type Keyed struct{ key uint64 }
+
+// NewKeyed draws the key of a run (call it on the driver goroutine).
+func NewKeyed(c *Chooser, label string) *Keyed { return &Keyed{key: c.U64(label)} }
+
+func (k *Keyed) hash(parts ...interface{}) uint64 {
+	h := sha256.New()
+	var b [8]byte
+	binary.LittleEndian.PutUint64(b[:], k.key)
+	h.Write(b[:])
+	fmt.Fprint(h, parts...)
+	return binary.LittleEndian.Uint64(h.Sum(nil)[:8])
+}
+
+// Int returns a value in [0,n).
+func (k *Keyed) Int(n int, parts ...interface{}) int {
+	if n <= 1 {
+		return 0
+	}
+	return int(k.hash(parts...) % uint64(n))
+}
+
+// Chance is true with probability num/den.
+func (k *Keyed) Chance(num, den int, parts ...interface{}) bool {
+	return k.Int(den, parts...) < num
+}
+
+// Weighted returns an index chosen with the given weights.
+func (k *Keyed) Weighted(weights []int, parts ...interface{}) int {
+	total := 0
+	for _, w := range weights {
+		total += w
+	}
+	v := k.Int(total, parts...)
+	for i, w := range weights {
+		if v < w {
+			return i
+		}
+		v -= w
+	}
+	return len(weights) - 1
 }
